@@ -144,7 +144,7 @@ def run_base_large(cases):
         x, y = matrix(1.0, (3, 1)), matrix(1.0, (2, 1))
         k = c["k"]
         ops = [
-            lambda: matrix(0.0, (big(), rnd.choice([0, 1, 2, big()]))),
+            lambda: matrix(0.0, (big(), rnd.choice([0, 2, big()]))),          # (715827883 x 1 doubles is a legitimate 5.7 GB allocation: slow, not wrong)
             lambda: matrix(0, (rnd.choice([65536, 46341, 2 ** 16 + 1]), rnd.choice([65536, 46341, 2 ** 16 + 1])), "i")[5],
             lambda: spmatrix(1.0, [0], [0], (big(), rnd.choice([1, 2]))),          # (a huge number of COLUMNS legitimately allocates and fills a huge colptr)
             lambda: A[big()],
